@@ -43,7 +43,7 @@ type HEVCFrameFieldInfo struct {
 
 func DecodePicTimingHevcSEI(sd *SEIData, exPar HEVCPicTimingParams) (SEIMessage, error) {
 	buf := bytes.NewBuffer(sd.Payload())
-	br := bits.NewEBSPReader(buf)
+	br := bits.NewReader(buf) // The payload is rbsp data. Emulation prevention bytes are already removed.
 	pt := PicTimingHevcSEI{
 		payload: sd.Payload(),
 	}
@@ -60,13 +60,13 @@ func DecodePicTimingHevcSEI(sd *SEIData, exPar HEVCPicTimingParams) (SEIMessage,
 		if exPar.SubPicHrdParamsPresentFlag {
 			pt.PicDpbOutputDuDelay = uint32(br.Read(int(exPar.DpbOutputDelayDuLengthMinus1) + 1))
 			if exPar.SubPicCpbParamsInPicTimingSeiFlag {
-				pt.NumDecodingUnitsMinus1 = uint32(br.ReadExpGolomb())
+				pt.NumDecodingUnitsMinus1 = uint32(readExpGolomb(br))
 				pt.DuCommonCpbRemovalDelayFlag = br.ReadFlag()
 				if pt.DuCommonCpbRemovalDelayFlag {
 					pt.DuCommonCpbRemovalDelayIncrementMinus1 = uint32(br.Read(int(exPar.DuCpbRemovalDelayIncrementLengthMinus1) + 1))
 				}
 				for i := uint32(0); i <= pt.NumDecodingUnitsMinus1; i++ {
-					pt.NumNalusInDuMinus1[i] = uint32(br.ReadExpGolomb())
+					pt.NumNalusInDuMinus1[i] = uint32(readExpGolomb(br))
 					if !pt.DuCommonCpbRemovalDelayFlag && i < pt.NumDecodingUnitsMinus1 {
 						pt.DuCpbRemovalDelayIncrementMinus1[i] = uint32(br.Read(int(exPar.DuCpbRemovalDelayIncrementLengthMinus1) + 1))
 					}
@@ -75,6 +75,18 @@ func DecodePicTimingHevcSEI(sd *SEIData, exPar HEVCPicTimingParams) (SEIMessage,
 		}
 	}
 	return &pt, br.AccError()
+}
+
+// readExpGolomb reads one unsigned exponential Golomb code (at most 32 leading zero bits) from rbsp data.
+func readExpGolomb(br *bits.Reader) uint {
+	leadingZeroBits := 0
+	for br.Read(1) == 0 {
+		if br.AccError() != nil || leadingZeroBits == 32 {
+			return 0
+		}
+		leadingZeroBits++
+	}
+	return (1 << leadingZeroBits) - 1 + br.Read(leadingZeroBits)
 }
 
 // Type returns the SEI payload type.
